@@ -423,3 +423,132 @@ func (p *Prog) filledBy(fn *ssa.Function, v ssa.Value, filler types.Object, argI
 	}
 	return false
 }
+
+// condCutsDeep returns the cut set of fn for a condition-shaped obligation: edgesOf(f) yields the edges of a
+// function on which the required fact holds; in addition the nil-error (or true-result) edge of a call to a
+// same-module helper counts when every path of the helper to a success return (to a `return true`) passes
+// such an edge inside it - "if err := s.checkCleanBoundary(); err != nil { return err }".
+func (p *Prog) condCutsDeep(fn *ssa.Function, edgesOf func(*ssa.Function) []Edge, depth int) *Cuts {
+	return p.condCutsDeepD(fn, edgesOf, depth, map[*ssa.Function]bool{fn: true})
+}
+
+func (p *Prog) condCutsDeepD(fn *ssa.Function, edgesOf func(*ssa.Function) []Edge, depth int, active map[*ssa.Function]bool) *Cuts {
+	cuts := newCuts().AddEdges(edgesOf(fn)...)
+	if depth <= 0 {
+		return cuts
+	}
+	allInstrs(fn, func(_ *ssa.BasicBlock, _ int, in ssa.Instruction) {
+		call, ok := in.(*ssa.Call)
+		if !ok {
+			return
+		}
+		g := calleeFn(call)
+		if !isModuleFn(g) || active[g] {
+			return
+		}
+		active[g] = true
+		inner := p.condCutsDeepD(g, edgesOf, depth-1, active)
+		delete(active, g)
+		if len(inner.Edges) == 0 && len(inner.Instrs) == 0 {
+			return
+		}
+		if len(errResults(call)) > 0 {
+			// error-returning helper: its success returns must all lie behind a fact edge
+			okAll, n := true, 0
+			for _, t := range p.successTargets(g) {
+				n++
+				if findPath(entryPoint(g), t.Target(), inner) != nil {
+					okAll = false
+				}
+			}
+			if okAll && n > 0 {
+				succ, _, checked := callErrEdges(fn, call)
+				if checked {
+					cuts.AddEdges(succ...)
+				} else {
+					cuts.AddInstrs(in) // "return helper()": the caller succeeds only if the helper did
+				}
+			}
+			return
+		}
+		// boolean helper: which constant result is only reachable behind a fact edge?
+		if b, isB := g.Signature.Results().At(0).Type().Underlying().(*types.Basic); g.Signature.Results().Len() == 1 && isB && b.Kind() == types.Bool {
+			for _, want := range []bool{true, false} {
+				okAll, n := true, 0
+				for _, r := range p.returnsOf(g) {
+					v := r.Ret.Results[0]
+					if r.Pred != nil {
+						if phi, isPhi := v.(*ssa.Phi); isPhi {
+							for i, pr := range r.Ret.Block().Preds {
+								if pr == r.Pred {
+									v = phi.Edges[i]
+								}
+							}
+						}
+					}
+					bv, isC := constBool(v)
+					if isC && bv != want {
+						continue
+					}
+					n++
+					if findPath(entryPoint(g), r.Target(), inner) != nil {
+						okAll = false
+					}
+				}
+				if okAll && n > 0 {
+					tE, fE := boolEdges(fn, call)
+					if want {
+						cuts.AddEdges(tE...)
+					} else {
+						cuts.AddEdges(fE...)
+					}
+				}
+			}
+		}
+	})
+	return cuts
+}
+
+// isWireByte0: v is byte 0 of a buffer that filler filled from the wire (argument argIdx) - loaded in fn, or
+// handed back as a result by a same-module helper whose every non-error return hands back such a byte.
+func (p *Prog) isWireByte0(fn *ssa.Function, v ssa.Value, filler types.Object, argIdx int, depth int) bool {
+	if u, ok := v.(*ssa.UnOp); ok && u.Op == token.MUL {
+		if ia, ok := u.X.(*ssa.IndexAddr); ok {
+			if i, isC := constInt(ia.Index); isC && i == 0 {
+				return p.filledBy(fn, ia.X, filler, argIdx, 3)
+			}
+		}
+		return false
+	}
+	if depth <= 0 {
+		return false
+	}
+	call, idx := originCall(v)
+	if call == nil {
+		return false
+	}
+	g := calleeFn(call)
+	if !isModuleFn(g) || g == fn {
+		return false
+	}
+	n := 0
+	for _, r := range p.returnsOf(g) {
+		if r.Class == "error" || idx >= len(r.Ret.Results) {
+			continue
+		}
+		n++
+		okRet := false
+		for _, o := range origins(g, r.Ret.Results[idx]) {
+			if p.isWireByte0(g, o, filler, argIdx, depth-1) {
+				okRet = true
+			} else {
+				okRet = false
+				break
+			}
+		}
+		if !okRet {
+			return false
+		}
+	}
+	return n > 0
+}
